@@ -121,9 +121,24 @@ def k2_no_panic(F, S, s, c):
               % (lab, kind, line), "%s:%s" % (g[0].span["file"] if g else "?", line))
     sites, chains = callgraph.external_sites(F, [fn])
     bad = False
+    fresh = {}   # struct -> number of `vec![v; n]` allocations made by its constructor
     for f, t, cls, fam, chain in sites:
         name = callees.callee_name(t["callee"])
-        if cls in ("pure", "user") or (cls == "allocates" and fam == "nopanic"):
+        if cls == "allocates" and fam == "nopanic":
+            # allocation panics for huge sizes (capacity overflow): a constructor may allocate its WINDOW — one `vec![v; period]` per
+            # Box<[f64]> field of the struct it builds — and nothing else; an indicator without a window allocates nothing
+            owner_fn = f
+            while owner_fn is not None and owner_fn.kind == "Closure":
+                owner_fn = F.fn_by_path.get(owner_fn.d.get("parent") or "")
+            st_ = owner_fn.self_struct if owner_fn is not None else None
+            nbuf = sum(1 for x_ in (F.struct_fields(st_) or []) if x_["ty"]["s"].startswith("std::boxed::Box<[")) if st_ else 0
+            if "from_elem" in name or "with_capacity" in name or "Box::new" in name or "collect" in name:
+                fresh[st_] = fresh.get(st_, 0) + 1
+                if not (owner_fn is not None and owner_fn.is_ctor and fresh[st_] <= nbuf):
+                    bad = True
+                    S.bad("K2", "alloc-in-new", "%s->%s" % (f.label, callees.strip_turbofish(name)), "%s allocates (%s) beyond the window buffers of the struct it builds (%d Box<[f64]> field(s)): for a huge period the allocation panics with capacity overflow" % (f.label, callees.strip_turbofish(name), nbuf), loc(t["span"]))
+            continue
+        if cls in ("pure", "user"):
             continue
         bad = True
         S.bad("K2", "panic-in-new", "%s->%s" % (f.label, name), "%s calls %s (%s/%s), which may panic, on the way from %s::new" % (f.label, name, cls, fam, s), loc(t["span"]))
@@ -315,21 +330,23 @@ def k6_single_constructor(F, S):
         owner = f.self_struct
         if f.name == "new" and owner in inds and not f.d.get("impl_trait"):
             continue
-        if (f.d.get("parent") or "").endswith("::new"):
-            continue  # a closure inside `new`
+        par_ = F.fn_by_path.get(f.d.get("parent") or "") if f.kind == "Closure" else None
+        par_ctor_of = par_.self_struct if (par_ is not None and par_.is_ctor and par_.self_struct in inds) else None
         for b in f.blocks:
             for st in b["stmts"]:
                 rv = st.get("rv") or {}
                 if st["k"] == "assign" and rv.get("k") == "aggregate" and rv.get("agg") == "adt" and not rv.get("is_enum") and short(rv["path"]) in inds:
+                    if par_ctor_of == short(rv["path"]):
+                        continue  # a closure inside the `new` of that very indicator
                     n += 1
                     S.bad("K6", "second-constructor", "%s:%s" % (f.label, short(rv["path"])), "%s builds a %s itself: every indicator value must come from its validated `new` (or from Clone / Default / deserialisation of one that did)"
                           % (f.label, short(rv["path"])), loc(st["span"]))
     # ... and no other hand-written function hands out an indicator: `impl From<usize> for Sma { Self::new(p).unwrap_or_default() }`
     # is a constructor that accepts 0 without assembling anything itself
     for f in F.fns:
-        if f.derived or f.kind == "Closure" or f.is_ctor:
+        if f.derived or f.kind == "Closure" or (f.is_ctor and f.self_struct in inds):
             continue
-        if f.name == "default" and f.trait_short == "Default":
+        if f.name == "default" and f.impl_trait in ("std::default::Default", "core::default::Default"):
             continue
         if f.path in F.helpers() and F.only_from_constructors(f.path):
             continue
